@@ -6,6 +6,7 @@ from sa.cfg import CFG, facts_at
 from sa.poly import P, sqrt, TermBuilder, Unsupported
 from sa.report import Incomplete
 from sa.rules_template import bind_call
+from sa.npcanon import npcall, npname
 
 CT = 'synapgrad.conv_tools'
 LY = 'synapgrad.nn.layers'
@@ -84,10 +85,15 @@ def check_pad(model, R):
             roles = {k: norm(b[k]) if k in b else None for k in ('kernel_size', 'step', 'padding', 'dilation')}
             ok = ok and roles == {'kernel_size': 'kernel_size', 'step': 'stride', 'padding': 'padding', 'dilation': 'dilation'}
             if red:
-                reds = [c for c in ast.walk(f.node) if isinstance(c, ast.Call) and isinstance(c.func, ast.Attribute) and c.func.attr in ('max', 'mean', 'min', 'sum')]
-                ok = ok and len(reds) == 1 and reds[0].func.attr == red and any(k.arg == 'axis' and norm(k.value) == '-1' for k in reds[0].keywords) and not any(k.arg in ('where', 'weights') for k in reds[0].keywords)
-                if '2d' in q:
-                    ok = ok and 'windows.reshape(*windows.shape[:-2], -1)' in norm(reds[0].func.value)
+                reds = [c for c in ast.walk(f.node) if isinstance(c, ast.Call) and npname(model, f, c) in ('max', 'mean', 'min', 'sum', 'amax', 'amin')]
+                ok = ok and len(reds) == 1 and npname(model, f, reds[0]) == red
+                if ok:
+                    rb = npcall(model, f, reds[0])[1]
+                    ok = norm(rb.get('axis')) == '-1' and not any(k in rb for k in ('where', 'weights')) and 'windows' in names_in(rb.get('a'))
+                    if '2d' in q:
+                        # both kernel axes are merged before reducing: reshape(windows, (*windows.shape[:-2], -1))
+                        rs = [c for c in ast.walk(rb['a']) if isinstance(c, ast.Call) and npname(model, f, c) == 'reshape']
+                        ok = ok and len(rs) == 1 and norm(npcall(model, f, rs[0])[1].get('newshape')).replace(' ', '') == '(*windows.shape[:-2],-1)'
         R.ob('C06.PAD', f.qualname, norm(ew[0])[:100] if ew else 'no extract_windows', ok, 'pad value %s, geometry roles (kernel_size, step=stride, padding, dilation), reducer %s over the full window' % (want_pad, red), f.loc)
 
 
@@ -98,6 +104,8 @@ def check_bn_form(model, R):
     atom_of = lambda e: P.atom(norm(e.func.value) if isinstance(e, ast.Call) else norm(e)) if isinstance(e, (ast.Attribute, ast.Subscript)) else None
 
     def on_call(tb, name, e):
+        if name == 'numpy.reshape':
+            return tb.build(e.args[0])
         if isinstance(e.func, ast.Attribute) and e.func.attr == 'reshape':
             return tb.build(e.func.value)
         return None
